@@ -150,11 +150,17 @@ def check_line(line, gfa, what, labels):
         raise Violation("clone-unwritable", "str(clone) of %r raised %s" % (before["line"], type(e).__name__), type(e).__name__)
     if ctext != before["line"]:
         raise Violation("clone-text", "clone of %s writes %r, original %r" % (what, ctext, before["line"]))
-    if not (c == line) or not (line == c):
+    try:
+        equal = (c == line) and (line == c)
+    except Exception as e:
+        raise Violation("eq-raised", "comparing the clone of %s %r with the original raised %s: %s" % (what, before["line"], type(e).__name__, str(e)[:200]), type(e).__name__)
+    if not equal:
         raise Violation("clone-unequal", "clone of %r does not compare equal" % before["line"])
     leaked = contains_line(c)
     if leaked:
         raise Violation("clone-holds-line", "clone of %r holds a Line object in field(s) %s" % (before["line"], leaked))
+    if c._datatype is line._datatype:
+        raise Violation("shared-object", "clone of %s %r shares the table of tag datatypes with the original" % (what, before["line"]), "datatype-table")
     shared = set(all_mutables(c)) & set(all_mutables(line))
     if shared:
         objs = all_mutables(c)
@@ -163,10 +169,19 @@ def check_line(line, gfa, what, labels):
     n = scramble(c)
     reassign(c)
     try:
+        c.set_datatype("zr", "i")
+        c.set("zr", 7)
+    except Exception:
+        pass
+    try:
         c.name = "renamed_clone"
     except Exception:
         pass
-    after = snapshot(line, gfa)
+    try:
+        after = snapshot(line, gfa)
+    except Exception as e:
+        raise Violation("original-affected", "after editing the clone of %s the original side cannot be written any more: %s: %s (before: %r)" % (
+            what, type(e).__name__, str(e)[:200], before), type(e).__name__)
     if after != before:
         raise Violation("original-affected", "editing the clone of %s changed the original side:\nbefore %r\nafter  %r" % (what, before, after))
     # roles exchanged
